@@ -207,6 +207,45 @@ def promote : Nat → Nat → Op Unit
         | (h1, .error e) => (h1, .error e)
       | _, _ => (setPtr c cn.parent none h, .ok ())
 
+/-! ### addressing a repetition by name and index (`ElementList.child_at_index`, `set`, `remove_by_name`) -/
+
+def nameOf (h : Heap) (c : Nat) : Option String := match h[c]? with | some n => some n.name | none => none
+
+/-- Python list indexing with a possibly negative index -/
+def pyIdx (l : List Nat) (i : Int) : Option Nat :=
+  if i ≥ 0 then l[i.toNat]? else if (-i).toNat ≤ l.length then l[l.length - (-i).toNat]? else none
+
+/-- `indexes[name]`: the by-name view is the child list filtered by name -/
+def namedReps (h : Heap) (p : Nat) (name : String) : List Nat :=
+  (match h[p]? with | some n => n.list | none => []).filter (fun c => nameOf h c == some name)
+
+/-- `traversal_indexes[name]` -/
+def namedTrav (h : Heap) (p : Nat) (name : String) : List Nat :=
+  (match h[p]? with | some n => n.tidx | none => []).filter (fun c => nameOf h c == some name)
+
+/-- `child_at_index(name, index)`: the real repetitions first, then the not-yet-materialised ones -/
+def childAt (h : Heap) (p : Nat) (name : String) (i : Int) : Option Nat :=
+  match pyIdx (namedReps h p name) i with
+  | some c => some c
+  | none => pyIdx (namedTrav h p name) i
+
+/-- `ElementList.set(name, <Element new>, index)` for an element named `name`: replace the addressed repetition, or append -/
+def setChild (p new : Nat) (i : Int) : Op Unit := fun h =>
+  match h[new]? with
+  | none => (h, .error .crash)
+  | some nn =>
+    match (match childAt h p nn.name i with
+           | none => append R p new h
+           | some old => replaceChild R p old new h) with
+    | (h1, .ok _) => promote R h1.length p h1        -- `self.element.set_parent_to_traversal()`
+    | (h1, .error e) => (h1, .error e)
+
+/-- `remove_by_name(name, index)` -/
+def removeByName (p : Nat) (name : String) (i : Int) : Op Unit := fun h =>
+  match childAt h p name i with
+  | none => (h, .error .crash)          -- `remove(None)`: AttributeError
+  | some c => remove p c h
+
 def listOf (h : Heap) (p : Nat) : List Nat := match h[p]? with | some n => n.list | none => []
 def parentOf (h : Heap) (c : Nat) : Option Nat := match h[c]? with | some n => n.parent | none => none
 
